@@ -44,7 +44,7 @@ PROPS['C03'] = {
 
 PROPS['C11'] = {
     'level': 'proof',
-    'verus': [{'unit': 'table'}],
+    'verus': [{'unit': 'table', 'fns': ['ClaimTable::lookup', 'ClaimTable::housekeep', 'ClaimTable::cache', 'ClaimTable::new', 'lemma_filter.*']}],
     'kani': {
         'files': {'src/types.rs': ['kani/types.rs']},
         'harnesses': [
@@ -193,6 +193,26 @@ PROPS['C20'] = {
     'not_decided': [],
 }
 
+TABLE_FNS = ['ClaimTable::new', 'ClaimTable::cache', 'ClaimTable::set_claims', 'ClaimTable::remove_claims', 'ClaimTable::lookup', 'ClaimTable::housekeep', 'lemma_.*']
+TABLE_TRUSTED = [
+    'vstd HashMap model with builds_valid_hashers::<BuildHasherDefault<FnvHasher>>() and obeys_key_model::<Address>() as axioms (sound for canonical addresses, which the dissectors produce: C19 harnesses assert the zero tail)',
+    'the clock is in [1, 2^48) and does not advance within one ClaimTable operation',
+    'R6: RangeList = SmallVec<[Range;4]> modelled by Vec<Range>',
+    'R5 pinned statements: `self.cache.retain(|_, v| v.timeout >= now)` and the two `for entry in self.cache.values_mut()` loops are replaced by contract-only calls (their text is pinned: any edit => undecided)',
+    'std contracts written in the unit: Vec::retain (verdict sequence), slice::Iter::position, SocketAddr ==, cmp::min; Range/Address == as field-wise/prefix equality (Address::eq proved by Kani harness address_eq_is_prefix_equality)',
+    'Range::matches is used through its contract r == range_contains (proved for all inputs by Kani harness range_matches_is_prefix_match)',
+]
+PROPS['C12'] = {
+    'level': 'proof',
+    'verus': [{'unit': 'table', 'fns': TABLE_FNS}],
+    'native_search': {'table::ClaimTable::set_claims': {'file': 'native/table_setclaims.rs', 'attach': 'src/table.rs', 'test': 'claims_equal_last_announcement'}},
+    'trusted': TABLE_TRUSTED,
+    'not_decided': [
+        'node level: "when a peer is removed for any reason no claim keeps pointing at it" needs GenericCloud::{housekeep, remove_peer, crypto_housekeep, add_new_peer} (HashMap iteration, sockets, handshake objects): crypto_housekeep removes a peer without remove_claims - reading only, no obligation stated',
+        'duplicates and order of the claim list are not part of the contract (set semantics)',
+    ],
+}
+
 NOT_APPLICABLE = {
     'C01': 'needs Ed25519 unforgeability plus InitMsg::read_from / InitState::handle_init, which neither back end reaches (150-line TLV parser over Cursor/SmallVec; ring key objects); no contract within reach expresses it',
     'C05': 'all-schedules agreement and recovery of two retransmitting state machines plus a liveness bound: a protocol-level joint invariant and liveness, outside per-function contracts',
@@ -200,7 +220,6 @@ NOT_APPLICABLE = {
     'C08': 'pending',
     'C09': 'whole-history property of 2-3 nodes over hundreds of seconds; no function-level contract expresses it without being stronger than the property',
     'C10': 'pending',
-    'C12': 'pending',
     'C13': 'pending',
     'C14': 'convergence of N nodes is liveness over multi-node histories; the safety half lives in handle_init/connect (out of reach of both back ends)',
     'C15': 'pending',
